@@ -850,13 +850,13 @@ theorem noOver_next {s : Sys} (hinv : Inv s) (hP : AllCls NoOver s.ca) (c : Cmd)
         exact this
     | childRevokeKey ch childRcn ki =>
       simp only [Ca.process] at hp
-      split at hp
-      · simp only [Except.ok.injEq] at hp; subst hp; exact plain (by intro e he; cases he)
-      · cases hg : get s.ca.children ch with
-        | none => simp [hg] at hp
-        | some cd =>
-          simp only [hg] at hp
-          split at hp
+      cases hg : get s.ca.children ch with
+      | none => simp [hg] at hp
+      | some cd =>
+        simp only [hg] at hp
+        split at hp
+        · simp only [Except.ok.injEq] at hp; subst hp; exact plain (by intro e he; cases he)
+        · split at hp
           · cases hp
           · simp only [Except.ok.injEq] at hp; subst hp
             exact plain (by
